@@ -73,6 +73,7 @@ type Summary struct {
 	Samples     []string       `json:"samples"`
 	WallS       float64        `json:"wall_s"`
 	Goarch      string         `json:"goarch"`
+	Skipped     int            `json:"skipped_after_timeouts"`
 }
 
 type Runner struct {
@@ -86,7 +87,12 @@ type Runner struct {
 	Sum     Summary
 	seen    map[string]struct{}
 	MaxFail int
+	// timeouts: implementation calls that did not return; their goroutines keep running, so after a few the run stops issuing cases
+	timeouts int
 }
+
+// Stopped reports whether the run stopped issuing cases (too many implementation calls did not return).
+func (r *Runner) Stopped() bool { return r.timeouts >= 3 }
 
 func New(model string) (*Runner, error) {
 	r := &Runner{Fns: map[string]*Fn{}, Oracles: map[string]func([]w.Val) w.Val{}, seen: map[string]struct{}{}, MaxFail: 5}
@@ -216,7 +222,14 @@ func (r *Runner) Run(c Case) Verdict {
 		fmt.Fprintln(os.Stderr, "HARNESS BUG: unknown function", c.Fn)
 		os.Exit(3)
 	}
+	if r.Stopped() {
+		r.Sum.Skipped++
+		return Verdict{Corr: true, Prop: true}
+	}
 	obs := r.Call(fn, c.Args)
+	if _, to := obs.(w.Timeout); to {
+		r.timeouts++
+	}
 	v := r.Ask(c.Prop, c.Fn, c.Args, obs)
 	r.record(c, obs, v, false)
 	return v
@@ -242,6 +255,25 @@ func (r *Runner) record(c Case, obs w.Val, v Verdict, shrunk bool) {
 	}
 	if len(s.Samples) < 6 && (s.Evaluations%97 == 1) {
 		s.Samples = append(s.Samples, trunc(c.Fn+" "+argS+" => "+w.Show(obs), 600))
+	}
+	// a panic or a call that does not return is never the model's answer: it is a failure of the property itself
+	// (no model accepts VPanic / VTimeout as an observed value, so dispatchers answer bad-case for them)
+	if k := obsKind(obs); (k == "panic" || k == "timeout") && (v.Class == "bad-case" || v.Bad != "" || !v.Prop) && !(v.Class != "" && v.Class != "-" && v.Class != "bad-case") {
+		s.PropFail++
+		v.Bad = ""
+		v.Class = "-"
+		v.Prop = false
+		note := "the implementation panicked"
+		if p, ok := obs.(w.Panic); ok {
+			note += ": " + trunc(p.Msg, 200)
+		}
+		if k == "timeout" {
+			note = "the implementation did not return within the harness's time limit"
+			r.fail(c, obs, v, "property", note)
+		} else {
+			r.failShrinkNote(c, obs, v, "property", note)
+		}
+		return
 	}
 	if v.Class == "bad-case" && v.Bad == "" {
 		v.Bad = "the model's dispatcher does not accept this case (shape of arguments or observed value)"
@@ -290,6 +322,14 @@ func (r *Runner) fail(c Case, obs w.Val, v Verdict, kind, note string) {
 }
 
 // failShrink minimises a failing case (same failure kind) before recording it.
+func (r *Runner) failShrinkNote(c Case, obs w.Val, v Verdict, kind, note string) {
+	n0 := len(r.Sum.Failures)
+	r.failShrink(c, obs, v, kind)
+	if len(r.Sum.Failures) > n0 {
+		r.Sum.Failures[len(r.Sum.Failures)-1].Note = note
+	}
+}
+
 func (r *Runner) failShrink(c Case, obs w.Val, v Verdict, kind string) {
 	cnt := 0
 	for _, f := range r.Sum.Failures {
@@ -303,7 +343,16 @@ func (r *Runner) failShrink(c Case, obs w.Val, v Verdict, kind string) {
 	fn := r.Fns[c.Fn]
 	still := func(args []w.Val) (bool, w.Val, Verdict) {
 		o := r.Call(fn, args)
+		if _, to := o.(w.Timeout); to {
+			r.timeouts++
+			return false, o, Verdict{}
+		}
 		vv := r.Ask(c.Prop, c.Fn, args, o)
+		if _, pn := o.(w.Panic); pn && kind == "property" {
+			if _, was := obs.(w.Panic); was {
+				return true, o, vv
+			}
+		}
 		if vv.Bad != "" || (vv.Class != "" && vv.Class != "-") {
 			return false, o, vv
 		}
@@ -317,7 +366,7 @@ func (r *Runner) failShrink(c Case, obs w.Val, v Verdict, kind string) {
 	budget := 300
 	improved := true
 	shr := false
-	for improved && budget > 0 {
+	for improved && budget > 0 && !r.Stopped() {
 		improved = false
 		for _, cand := range Shrinks(best) {
 			if budget <= 0 {
